@@ -152,15 +152,23 @@ let show_obj o = let ob = !lst.objs (n o) in
   (match ob.o_raw with None -> "-" | Some r -> string_of_int (i r)) ^ (if ob.o_fl then ":T" else ":0")
 let extra : int option ref = ref None
 let tst = ref TreiberTables.tinit
+let pend : row option ref = ref None
 let observe_l () =
   observe () ^ "|ro=" ^ String.concat "," (Stdlib.List.map show_obj (!det @ (match !extra with Some o -> [o] | None -> [])))
 
+(* pvCreateRaw / pvNewRow through TreiberCreate.stepc: the buffer is pending between Allocate and pvMakeRow / the catch block *)
+let firec cl_ =
+  match TreiberCreate.stepc { TreiberCreate.cl = !lst; TreiberCreate.pending = !pend } cl_ with
+  | Some cs -> lst := cs.TreiberCreate.cl; st := !lst.lbase; pend := cs.TreiberCreate.pending
+  | None -> raise (Stuck (match cl_ with TreiberCreate.CTakeRaw _ -> "take-raw(buffer not free)" | TreiberCreate.CMakeRow _ -> "make-row"
+                                        | TreiberCreate.CAbort _ -> "abort" | TreiberCreate.CL _ -> "concurrent-step"))
 let event_l ev =
   let c = ev.[0] and arg = String.sub ev 1 (String.length ev - 1) in
   match c with
   | 'N' -> let r = int_of_string arg in note r; if r > !maxrow then maxrow := r;
            if !lst.lbase.head <> None then ldrain ();
-           let local = fresh () in firel (LNew (n local, n r, None)); firel (LB (Scribble (n r, Some (n 0))));
+           let local = fresh () in firec (TreiberCreate.CTakeRaw (n r)); firec (TreiberCreate.CMakeRow (n local, None));
+           firel (LB (Scribble (n r, Some (n 0))));
            push_back_from local
   | 'X' -> let r = int_of_string arg in let local = fresh () in firel (LExtract (n local, n r)); push_back_from local
   | 'A' -> let k = slot_of (int_of_string arg) in firel (LAdd (n (Stdlib.List.nth !det k))); erase k
@@ -188,7 +196,11 @@ let event_l ev =
   | 'E' -> Stdlib.List.iter destroy_obj !det; det := []           (* vector::clear destroys front to back *)
   | 'C' -> ldrain (); Stdlib.List.iter (fun r -> firel (LB (ORemove (n r, None)))) (ids_of arg)
   | 'S' -> firel (LB (Scribble (n (int_of_string arg), Some (n 12345))))
-  | 'Z' -> if !lst.lbase.head <> None then ldrain ()
+  | 'Z' -> (* a NewRow whose item assignment throws: drained, took a buffer from the pool, gave it straight back *)
+           if !lst.lbase.head <> None then ldrain ();
+           let rec free_row k = if !lst.lbase.status (n k) = Free then k else free_row (k + 1) in
+           firec (TreiberCreate.CTakeRaw (n (free_row 0))); firec (TreiberCreate.CAbort (Some (n 3)));
+           if !pend <> None then raise (Stuck "buffer still pending after the catch block")
   | 'V' -> (* the table object is moved: TreiberTables.stept; the layered state must not change (frame) *)
            let firet tl_ = (match TreiberTables.stept !tst tl_ with
                             | Some s -> if s.TreiberTables.tl != !tst.TreiberTables.tl then raise (Stuck "table-move-changed-rows"); tst := s
@@ -207,7 +219,7 @@ let event_l ev =
 let same_set a b = Stdlib.List.sort compare a = Stdlib.List.sort compare b
 
 let run_seq evs =
-  st := init; lst := linit; tst := TreiberTables.tinit; det := []; next_obj := 0; free_ids := []; maxrow := 0; fired := 0; extra := None; dcount := 0; Hashtbl.reset known;
+  st := init; lst := linit; tst := TreiberTables.tinit; pend := None; det := []; next_obj := 0; free_ids := []; maxrow := 0; fired := 0; extra := None; dcount := 0; Hashtbl.reset known;
   let buf = Buffer.create 256 in
   let stuck = ref false in
   Stdlib.List.iter (fun ev ->
